@@ -125,6 +125,14 @@ def mon_c02(m, out):
                                   "%s reported success (seq %d) but its non-forever job %s had %d start(s) and %s"
                                   % (s, rend['seq'], j, len(ens),
                                      "no end" if e is None else "an end"))
+                elif e['kind'] in END_KO:
+                    # "ran to its own end (returned, or raised while non-critical)"
+                    if m.critical(j):
+                        out.violation('success-with-critical-raise',
+                                      "%s reported success (seq %d) although its critical non-forever job %s "
+                                      "raised %r at t=%s" % (s, rend['seq'], j, e.get('exc'), e['t']))
+                    else:
+                        out.count('non-critical raises inside successful runs')
             if a.nonf:
                 out.nontrivial = True
     # tie statistics: joins whose requirements completed in the same loop iteration
@@ -292,6 +300,59 @@ def mon_c04(m, out):
 
 
 # ------------------------------------------------------------------ abort clauses (C05, C08, C09)
+def relay_clause(m, s, n, c, out, what):
+    """
+    The nested scheduler `n`, a job of `s`, got the cancel request `c` while its
+    run was in progress.  "Everything running is cancelled at that instant"
+    holds at any depth: whatever `n` is waiting for at that moment - bodies of
+    jobs in its subtree, or co_shutdown() handlers if it is in a shutdown
+    phase - is interrupted in that very instant (or ends by itself in it), and
+    `n` itself is over when those are.  Nothing here depends on the phase `n`
+    is in, which is the point: no phase of a nested run may sit a cancellation
+    out.
+    """
+    t = c['t']
+    en = m.enter(n)
+    be = m.body_end(n)
+    if en is None or en['seq'] > c['seq'] or (be is not None and be['seq'] < c['seq']):
+        return
+    out.count('nested schedulers cancelled while their run was in progress')
+    last = t
+    for x in m.subtree_atoms(n):
+        ex = m.enter(x)
+        if ex is not None and ex['seq'] < c['seq']:
+            nxt = m.first(x, ('cancel', 'return', 'raise'), after=ex['seq'])
+            if nxt is None or nxt['seq'] > c['seq']:
+                out.count('  ... bodies executing inside them at that moment')
+                if nxt is None or nxt['t'] != t:
+                    out.violation('cancel-not-relayed',
+                                  "%s %s at t=%s and cancelled its nested scheduler %s: the body of %s, running "
+                                  "inside it, was %s" % (s, what, t, n, x, "never interrupted" if nxt is None
+                                                         else "left alone until t=%s (%s)" % (nxt['t'], nxt['kind'])))
+        for sx in m.all(x, ('sd_enter',)):
+            if sx['seq'] > c['seq']:
+                continue
+            nxt = m.first(x, ('sd_cancel', 'sd_return'), after=sx['seq'])
+            if nxt is None or nxt['seq'] > c['seq']:
+                out.count('  ... co_shutdown() handlers executing inside them at that moment')
+                if nxt is None or nxt['t'] != t:
+                    out.violation('cancel-not-relayed',
+                                  "%s %s at t=%s and cancelled its nested scheduler %s: the co_shutdown() of %s, "
+                                  "pending inside it, was %s" % (s, what, t, n, x, "never interrupted" if nxt is None
+                                                                 else "left alone until t=%s (%s)" % (nxt['t'], nxt['kind'])))
+    if be is not None:
+        # (jobs started in the very instant of the request, before it reached
+        # them, count as well: whatever ends inside `n` after the request)
+        for x in m.subtree_atoms(n):
+            for e in m.by[x]:
+                if c['seq'] < e['seq'] < be['seq'] and e['kind'] in BODYEND + ('sd_cancel', 'sd_return'):
+                    last = max(last, e['t'])
+    if be is not None and be['kind'] == 'run_cancel' and be['t'] != last:
+        out.violation('cancelled-nested-run-end',
+                      "%s %s at t=%s and cancelled its nested scheduler %s, whose run ended at t=%s although "
+                      "everything it was waiting for was over at t=%s" % (s, what, t, n, be['t'], last))
+
+
 def abort_clauses(m, a, out, what):
     """
     S left its main loop at instant ta for cause `what`: nothing starts later,
@@ -322,6 +383,8 @@ def abort_clauses(m, a, out, what):
         if e is not None and e['t'] > ta:
             out.violation('normal-completion-after-abort',
                           "%s %s at t=%s but %s completed normally later, at t=%s" % (s, what, ta, j, e['t']))
+        if cs and m.is_sched[j]:
+            relay_clause(m, s, j, cs[0], out, what)
         for c in cs:
             if c['t'] != ta:
                 out.violation('cancel-at-wrong-instant',
@@ -450,6 +513,21 @@ def mon_c08(m, out):
                                           "request at t=%s" % (s, a.cause, ta, a.texp, j, c['t']))
                 if a.rend['t'] > a.texp and a.shut_enter is not None and a.shut_enter['t'] < a.texp:
                     out.count('shutdown phase crossing the expiry instant')
+                # "the timeout has no effect": neither on the shutdown phase,
+                # whose own bound is shutdown_timeout alone
+                se, sr = a.shut_enter, a.shut_end
+                if se is not None and sr is not None and sr['kind'] == 'shut_return':
+                    sdt = m.node[s].get('sdt', 1)
+                    bound = None if sdt is None else se['t'] + sdt
+                    if bound is None or bound > a.texp:
+                        out.count('shutdown phases that may outlast the expiry instant of a finished run')
+                    for j in a.dj:
+                        for e in m.all(j, ('sd_cancel', 'shut_cancel')):
+                            if se['seq'] < e['seq'] < sr['seq'] and e['t'] != bound and e['t'] == a.texp:
+                                out.violation('timeout-reaches-into-shutdown',
+                                              "%s was over (%s) at t=%s, before its expiry t=%s, yet the co_shutdown() "
+                                              "of %s was cut at t=%s (shutdown began at t=%s, shutdown_timeout %s)"
+                                              % (s, a.cause, ta, a.texp, j, e['t'], se['t'], sdt))
             elif ta == a.texp:
                 out.count('other cause exactly at expiry (tie, accepted)')
 
@@ -746,6 +824,24 @@ def mon_c13(m, out):
                 continue
             launched = [x for j in m.direct(s)
                         for x in m.all(j, ('sd_enter', 'shut_enter')) if se['seq'] < x['seq'] < sr['seq']]
+            # "handlers still pending then being cancelled", at any depth: whatever
+            # co_shutdown() this phase caused, directly or through nested
+            # schedulers, is over (returned or cancelled) when the phase is
+            direct = set(m.direct(s))
+            for x in m.subtree_atoms(s):
+                for sx in m.all(x, ('sd_enter',)):
+                    if not se['seq'] < sx['seq'] < sr['seq']:
+                        continue
+                    out.count('handlers launched inside a shutdown phase')
+                    if x not in direct:
+                        out.count('  ... through nested schedulers')
+                    end = m.first(x, ('sd_return', 'sd_cancel'), after=sx['seq'])
+                    if end is None or end['seq'] > sr['seq']:
+                        out.violation('handler-outlives-shutdown-phase',
+                                      "%s: its shutdown phase ended (%s, t=%s) while the co_shutdown() of %s, launched "
+                                      "during it at t=%s, was %s" % (s, sr['kind'], sr['t'], x, sx['t'],
+                                                                    "never over" if end is None else
+                                                                    "not over before t=%s (%s)" % (end['t'], end['kind'])))
             if idx > 0:
                 out.count('repeated co_shutdown() calls on a scheduler')
                 if launched:
@@ -789,7 +885,13 @@ def mon_c13(m, out):
         if idx_explicit is not None:
             out.count('explicit shutdown() after the run')
             late = [e for e in m.ev[idx_explicit + 1:] if e['kind'] in ('sd_enter',)]
-            if late:
+            atop = m.run(m.top)
+            if atop is not None and atop.rend is not None and atop.rend['kind'] == 'run_cancel':
+                # not one of the three exit paths: the caller gave up on the run,
+                # which therefore had no shutdown phase of its own; the explicit
+                # call is then what delivers co_shutdown() (once: clause above)
+                out.count('explicit shutdown() after a run cancelled by its caller')
+            elif late:
                 out.violation('explicit-shutdown-sent-something',
                               "a later explicit co_shutdown() reached %s" % [e['who'] for e in late][:5])
             es = exe.explicit_shutdown
